@@ -477,3 +477,12 @@ for fn, ent in (("BinaryFirst", "h_C20_binary_first"), ("BinaryLast", "h_C20_bin
     O("C20.%s" % fn, "C20", "h_C20.c", ent,
       "%s (binary search of the sort) over an array of any length up to 2^20: reads only inside the range, returns an index in [start, end], terminates (inductive loop contract), writes nothing" % fn,
       [fn], dfcc=True, enforce=fn, loop_contracts=True, solver=["minisat", "kissat"], timeout={"quick": 600, "thorough": 1800}, replay=False, replay_note="frame variant (is_fresh inputs)")
+O("C09.wly", ["C09", "C16", "C01"], "h_C09.c", "h_C09_wly",
+  "rrul_fill_wly (Gregorian scale): memory safe incl. the weekday-increment table and the time-of-day enumeration, returns <= nti and <= COUNT, every loop terminates, occurrences within [DTSTART, UNTIL] - for every valid DTSTART, every well-formed container state, INTERVAL 1..64",
+  ["rrul_fill_wly"], dfcc=True, loop_contracts=True, with_unwind=True,
+  replace=["bi447_next", "bui31_next", "echs_scale_ndim", "echs_scale_wday", "echs_instant_rescale", "make_enum"],
+  replace_status={"bi447_next": "discharged by C19.bi447_next", "bui31_next": "discharged by C19.bui31_next",
+                  "echs_scale_ndim": "discharged for the Gregorian scale by C15.dispatch/C15.greg", "echs_scale_wday": "discharged by C15.dispatch/C15.greg",
+                  "echs_instant_rescale": "identity on the Gregorian scale (C15.rescale.*)", "make_enum": "trusted: 1..24/60/60 entries (not discharged)"},
+  solver=["minisat"], mem_gb=28, timeout={"quick": 1500, "thorough": 7200}, replay=False, replay_note="callees replaced by contracts",
+  defines=["-DRR_INTER_MAX=64U"])
